@@ -29,6 +29,7 @@ CHECK = dict(
         "*:vector_histories_S100": {"quick": 600, "thorough": 18000},
         "*:vector_histories_Tracked40": {"quick": 600, "thorough": 18000},
         "*:vector_histories_SelfRef24": {"quick": 600, "thorough": 18000},
+        "*:vector_histories_ListVal16": {"quick": 600, "thorough": 18000},
         "plain-mm:release_cycles": 6000,
         "plain-tbb:release_cycles": 6000,
     },
